@@ -24,6 +24,27 @@ def run(ctx):
     ops = list(CORPUS)
     for _ in range(n_ca):
         ops.append("ca %d %s" % (rng.choice(MASKS), " ".join(g.shape(rng))))
+    # targeted probes: for every route, the shapes an attacker would try first (most are refused by
+    # the gate; whether each is "deny" is decided by the model, not assumed here)
+    good = "auth:ok:ok:ok:past:future:%d:alice" % (2 | 8 | 64)
+    targeted = [
+        ("POST", "other", "1", "none", good, "none", "1"), ("PUT", "other", "1", "none", good, "none", "1"),
+        ("POST", "other", "1", "km:2", "none", "none", "1"), ("POST", "other", "1", "ipin:2", "none", "none", "1"),
+        ("POST", "other", "1", "none", "none", "valid", "1"), ("POST", "none", "1", "none", "none", "none", "1"),
+        ("POST", "none", "1", "none", "auth:ok:ok:ok:past:past:74:alice", "none", "1"),
+        ("POST", "none", "1", "none", "auth:foreign:ok:ok:past:future:74:alice", "none", "1"),
+        ("POST", "none", "1", "none", "cli:ok:ok:ok:past:future:74:alice", "none", "1"),
+        ("POST", "none", "1", "none", "auth:ok:ok:ok:future:future:74:alice", "none", "1"),
+        ("POST", "none", "1", "ipout:2", "none", "none", "1"), ("POST", "none", "1", "km:2:denied", "none", "none", "1"),
+        ("POST", "none", "1", "ipin:2:denied", "none", "none", "1"), ("POST", "none", "1", "foreign:2", "none", "none", "1"),
+        ("POST", "none", "1", "km:2", "none", "none", "1"), ("POST", "none", "1", "ipin:2", "none", "none", "1"),
+        ("POST", "same", "1", "none", good, "none", "1"), ("GET", "none", "1", "none", good, "none", "1"),
+        ("POST", "none", "1", "none", "none", "invalid", "1"), ("POST", "none", "1", "none", "none", "valid", "0"),
+    ]
+    for r in routes:
+        for webui in (["password"], ["U2F"]):
+            for sh in targeted:
+                ops.append("rt %s %s %s" % (r["path"], ",".join(webui), " ".join(sh)))
     for r in routes:
         for _ in range(per_route):
             webui = rng.choice([["password"], ["U2F"], ["U2F", "TOTP"], ["SymantecVIP", "Okta2FA"], []])
